@@ -45,8 +45,12 @@ def plan(tier, seed):
     nsh = 16
     per = 2 if tier != "thorough" else 22
     nsamp = 1 if tier != "thorough" else 4
-    return [{"name": f"C05-{i}", "shard": i, "per_family": per, "samplers_per_family": nsamp if i % 2 == 0 or tier == "thorough" else 0,
-             "x64": True, "timeout": 3000} for i in range(nsh)]
+    sh = [{"name": f"C05-{i}", "shard": i, "per_family": per, "samplers_per_family": nsamp if i % 2 == 0 or tier == "thorough" else 0,
+           "x64": True, "timeout": 3000} for i in range(nsh)]
+    # single precision, parameter magnitudes 1e-6..1e3: densities and accessors of the scalar families (where a constrained
+    # parameter's reparameterisation loses digits it shows in float32 first)
+    sh += [{"name": f"C05-f32-{i}", "shard": 100 + i, "f32": True, "reps": 3 if tier != "thorough" else 40, "x64": False, "timeout": 3000} for i in range(2)]
+    return sh
 
 
 # ------------------------------------------------------------------ textbook references --
@@ -498,6 +502,8 @@ def run_shard(shard):
             rec.violation("mixture.after_update", f"mixture of {k} Normal after its weight leaf moved: log_prob({xs[i]}) = {lp[i]!r}, weight-normalised sum of the component "
                                                   f"densities {ref[i]!r} (weights sum to exp({float(logsumexp(lw))!r}))", tag, ("init", 0.0), {})
 
+    if shard.get("f32"):
+        return _run_f32(shard, rec, D, jnp, jsonable, chash)
     only = shard.get("items")
     if not only:
         r0 = np.random.default_rng([shard["seed"], 5, shard["shard"], 999])
@@ -543,4 +549,85 @@ def run_shard(shard):
     if not shard.get("replay"):
         out["required"] = {k: rec.counters.get(k, 0) for k in ("density_points_compared", "accessor_checks", "mixture_points_compared",
                                                                "density_points_outside_support", "density_points_on_edge")}
+    return out
+
+
+def _run_f32(shard, rec, D, jnp, jsonable, chash):
+    """float32 pass: scalar families with small / large parameter magnitudes; reference = the textbook density in float64 of the
+    float32-rounded parameters at float32 points."""
+    f32 = np.float32
+    fams = ["Normal", "Gumbel", "Cauchy", "Laplace", "Logistic", "StudentT", "Exponential", "Uniform", "LogNormal"]
+    only = shard.get("items")
+    idx = 0
+    for rep in range(shard["reps"]):
+        for fam in fams:
+            for mag in (1e-6, 1e-5, 1e-4, 1e-2, 1.0, 1e3):
+                tag = {"family": fam, "index": idx, "origin": "generated", "dtype": "float32"}
+                idx += 1
+                if only and only[0]["index"] != tag["index"]:
+                    continue
+                rng = np.random.default_rng([shard["seed"], 55, shard["shard"], tag["index"]])
+                n = int(rng.integers(1, 4))
+                scale = (np.exp(rng.uniform(-0.5, 0.5, size=n)) * mag).astype(f32)
+                loc = (scale * rng.choice([0.0, 3.0]) * rng.normal(size=n)).astype(f32)
+                z = rng.normal(size=(8, n))
+                try:
+                    if fam == "Exponential":
+                        p = {"rate": (1 / scale).astype(f32)}
+                        d = D.Exponential(jnp.asarray(p["rate"]))
+                        x = (np.abs(z) / p["rate"].astype(np.float64)).astype(f32)
+                    elif fam == "Uniform":
+                        p = {"minval": loc, "maxval": (loc.astype(np.float64) + scale).astype(f32)}
+                        if not np.all(p["maxval"] > p["minval"]):
+                            continue
+                        d = D.Uniform(jnp.asarray(p["minval"]), jnp.asarray(p["maxval"]))
+                        x = (loc + (p["maxval"].astype(np.float64) - loc) * rng.uniform(0.05, 0.95, size=(8, n))).astype(f32)
+                    elif fam == "StudentT":
+                        # (moderate degrees of freedom: lgamma((nu+1)/2) - lgamma(nu/2) cancels in single precision for nu >> 100)
+                        p = {"df": np.exp(rng.uniform(-1, 3, size=n)).astype(f32), "loc": loc, "scale": scale}
+                        d = D.StudentT(jnp.asarray(p["df"]), jnp.asarray(loc), jnp.asarray(scale))
+                        x = (loc + scale.astype(np.float64) * z).astype(f32)
+                    elif fam == "LogNormal":
+                        sc = np.clip(scale, 1e-3, 3.0).astype(f32)
+                        p = {"loc": np.clip(loc, -3, 3).astype(f32), "scale": sc}
+                        d = D.LogNormal(jnp.asarray(p["loc"]), jnp.asarray(sc))
+                        x = np.exp(p["loc"] + sc.astype(np.float64) * z).astype(f32)
+                    else:
+                        p = {"loc": loc, "scale": scale}
+                        d = getattr(D, fam)(jnp.asarray(loc), jnp.asarray(scale))
+                        x = (loc + scale.astype(np.float64) * z).astype(f32)
+                except Exception as e:  # noqa: BLE001
+                    rec.violation(f"build.{type(e).__name__}", f"{fam} (float32) params={jsonable(p)}: constructor raised {type(e).__name__}: {str(e)[:200]}", tag, ("init", 0.0), {})
+                    continue
+                p64 = {k: np.asarray(v, dtype=np.float64) for k, v in p.items()}
+                # accessors reproduce the constructor arguments to float32 rounding
+                for a in [k for k in ("scale", "rate", "df", "minval", "maxval", "loc") if k in p and fam != "LogNormal"]:
+                    got = np.asarray(getattr(d, a), dtype=np.float64)
+                    rec.count("f32_accessor_checks")
+                    rec.evals += 1
+                    slack = np.abs(p64.get("minval", 0.0)) if a == "maxval" else 0.0
+                    if not np.all(np.abs(got - p64[a]) <= 4e-6 * (np.abs(p64[a]) + slack)):
+                        rec.violation(f"accessor.{fam}.{a}", f"{fam}.{a} (float32) returns {got.tolist()} but was constructed with {p64[a].tolist()}", tag, ("init", 0.0), {"params": p})
+                lp = np.asarray(d.log_prob(jnp.asarray(x)), dtype=np.float64)
+                x64_ = x.astype(np.float64)
+                ref = ref_logpdf(fam, p64, x64_).sum(-1)
+                # rounding of the standardisation (x - loc) / scale in float32, amplified by the density's slope in z
+                zz = np.abs((x64_ - p64.get("loc", p64.get("minval", 0.0))) / (p64["scale"] if "scale" in p64 else (1 / p64["rate"] if "rate" in p64 else p64["maxval"] - p64["minval"])))
+                cancel = (np.abs(x64_) + np.abs(p64.get("loc", 0.0))) / np.maximum(np.abs(x64_ - p64.get("loc", 0.0)), 1e-300) if "loc" in p64 else 1.0
+                tol = 5e-5 * (1 + np.abs(ref)) * n + (1e-6 * (1 + zz) * (1 + zz) * np.minimum(cancel, 1e6)).sum(-1)
+                fin = np.isfinite(ref) & (tol < 1e-2 * (1 + np.abs(ref)))
+                rec.evals += int(fin.size)
+                rec.count("f32_density_points_compared", int(fin.sum()))
+                err = np.abs(lp - ref)
+                rec.maxi("f32_density_err_over_tol", float(np.max(np.where(fin & (err <= tol), err / tol, 0))) if fin.any() else 0.0)
+                bad = fin & ~(err <= tol)
+                if bad.any():
+                    i = int(np.where(bad)[0][0])
+                    rec.violation(f"density.{fam}", f"{fam} (float32) params={jsonable(p)}: log_prob({x[i].tolist()}) = {lp[i]!r} but the textbook density gives {ref[i]!r} "
+                                                    f"(tol {tol[i]:.3g}; {int(bad.sum())} of {bad.size} points)", tag, ("init", 0.0), {"params": p, "x": x[i]})
+                if mag != 1.0:
+                    rec.nontrivial.add(chash("f32", fam, mag, rep, shard["shard"]))
+    out = rec.result()
+    if not shard.get("replay"):
+        out["required"] = {k: rec.counters.get(k, 0) for k in ("f32_density_points_compared", "f32_accessor_checks")}
     return out
